@@ -307,6 +307,62 @@ def sequence_probes(rec):
                 continue
             if diffs:
                 rec.violation("exported-bits-wrong", f"Signal(w={w}): slice index edited from {first} to {second} after a look: " + "; ".join(diffs[:2]), case=case, parent="Signal")
+    # the index assigned twice after a look, with throw-away slice objects (an address-keyed cache sees the freed one again)
+    for w, first, mid, last in ((8, [0, 2, None], [6, 8, None], [3, 5, None]), (6, [0, 1, None], [4, 6, None], [2, 5, None]), (8, [1, 2, None], [5, 8, None], [0, 3, None])):
+        rec.count("history.index-edited")
+        case = {"kind": "index-edit-twice", "w": w, "indices": [first, mid, last]}
+        rec.case(key=jhash(case), nontrivial=True, sample=None)
+        sel, _ = py_select(w, [last])
+        design = make_design("Signal", w, [last], len(sel), arrays=False)
+        try:
+            built = build.Built()
+            built.uid = f"_{next(build._counter)}"
+            mb = build.ModBuilder(design, design["modules"][0], built)
+            mb.declare()
+            mb.connect_all()
+            sl = mb.insts["d"].conns["p"]
+            sl.index = slice(*first)
+            sl._inner = None
+            _ = sl.width
+            sl.index = slice(*mid)
+            sl.index = slice(*last)
+            if sl.width != len(sel):
+                rec.violation("reported-width-wrong", f"Signal(w={w}): a slice made as {first}, looked at, then given the indices {mid} and {last} reports width {sl.width}; "
+                                                      f"Python selects {len(sel)} bit(s)", case=case, parent="Signal")
+                continue
+            diffs = pkgread.compare(refsem.flatten(design), pkgread.flatten(h.to_proto(mb.finish())))
+        except Exception as e:
+            rec.violation("valid-index-rejected:Signal", f"Signal(w={w}): slice index edited twice raised {oracle.exc_sig(e)[:120]}", case=case, parent="Signal", stage="edit")
+            continue
+        if diffs:
+            rec.violation("exported-bits-wrong", f"Signal(w={w}): slice made as {first}, looked at, then given {mid} and {last}: " + "; ".join(diffs[:2]), case=case, parent="Signal")
+    # two slices taken with the SAME index from one parent are two objects: editing one leaves the other where it was
+    for w in (8, 6):
+        rec.count("history.index-edited")
+        case = {"kind": "two-slices-one-index", "w": w}
+        rec.case(key=jhash(case), nontrivial=True, sample=None)
+        try:
+            m = h.Module(name=f"TwoSl{next(build._counter)}")
+            bus = m.add(h.Signal(width=w), name="bus")
+            a, b = bus[0:2], bus[0:2]
+            _ = (a.width, b.width)
+            b.index = slice(w - 2, w)
+            leaf = build.leaf_call(refsem.wleaf(2), 61)
+            m.add(h.Instance(of=leaf)(p=a), name="ia")
+            m.add(h.Instance(of=build.leaf_call(refsem.wleaf(2), 62))(p=b), name="ib")
+            m.add(h.Instance(of=build.leaf_call(refsem.wleaf(w), 63))(p=bus), name="ob")
+            pkg = h.to_proto(m)
+            got = {}
+            for inst in pkg.modules[-1].instances:
+                for c in inst.connections:
+                    if c.target.WhichOneof("stype") == "slice":
+                        got[inst.name] = (c.target.slice.bot, c.target.slice.top)
+        except Exception as e:
+            rec.violation("valid-index-rejected:Signal", f"two slices bus[0:2] of one {w}-bit signal, one edited to the top two bits: {oracle.exc_sig(e)[:120]}", case=case, parent="Signal", stage="edit")
+            continue
+        if got.get("ia") != (0, 1) or got.get("ib") != (w - 2, w - 1):
+            rec.violation("exported-bits-wrong", f"two slices bus[0:2] of one {w}-bit signal, the second edited to [{w - 2}:{w}]: exported (bot, top) {got}; "
+                                                 f"expected ia (0, 1), ib ({w - 2}, {w - 1})", case=case, parent="Signal")
     # iteration
     for w in (1, 3, 5):
         m = h.Module(name=f"IterProbe{next(build._counter)}")
